@@ -138,7 +138,7 @@ impl PollSys {
             cap: cap_for(timeout, cap_mult),
             alphabet,
             probes,
-            others: vec![(0x90 | ch, 6, 38), (0xB0 | ch, 7, 6)],
+            others: noncontrib_small::<PollingParameterNumberMessageScanner>(ch),
             noncontrib: Vec::new(),
             report,
             reacted: (0..128).map(|_| AtomicBool::new(false)).collect(),
@@ -149,14 +149,14 @@ impl PollSys {
         PollingParameterNumberMessageScanner::new(Duration::from_millis(self.timeout))
     }
 
-    fn v13(&self, rule: &str, cls: &str, detail: String) -> Violation {
-        Violation::new(rule, format!("C13/{}/{}/T={}", rule, cls, self.tname()), detail)
+    fn v13(&self, rule: &str, cls: &str, detail: impl FnOnce() -> String) -> Violation {
+        Violation::lazy(rule, format!("C13/{}/{}/T={}", rule, cls, self.tname()), detail)
     }
-    fn v14(&self, rule: &str, cls: &str, detail: String) -> Violation {
-        Violation::new(rule, format!("C14/{}/{}/T={}", rule, cls, self.tname()), detail)
+    fn v14(&self, rule: &str, cls: &str, detail: impl FnOnce() -> String) -> Violation {
+        Violation::lazy(rule, format!("C14/{}/{}/T={}", rule, cls, self.tname()), detail)
     }
-    fn vx(&self, rule: &str, cls: &str, detail: String) -> Violation {
-        Violation::new(rule, format!("{}/PollingParameterNumberMessageScanner/{}/{}/T={}", self.pid, rule, cls, self.tname()), detail)
+    fn vx(&self, rule: &str, cls: &str, detail: impl FnOnce() -> String) -> Violation {
+        Violation::lazy(rule, format!("{}/PollingParameterNumberMessageScanner/{}/{}/T={}", self.pid, rule, cls, self.tname()), detail)
     }
     pub fn tname(&self) -> String {
         if self.timeout >= T_INF {
@@ -170,18 +170,18 @@ impl PollSys {
     /// triggering feed if it was a contributing Control Change, `None` for polls and other feeds.
     fn judge_content(&self, ob: &Obs, ctrl: Option<(u8, u8)>, t: &Tup, trigger: &str, v: &mut Vec<Violation>) {
         if t[0] != self.ch as u32 {
-            v.push(self.v14("P1-channel-of-triggering-call", trigger, format!("{} on channel {} reported {}", trigger, self.ch, pnm_str(t))));
+            v.push(self.v14("P1-channel-of-triggering-call", trigger, || format!("{} on channel {} reported {}", trigger, self.ch, pnm_str(t))));
         }
         match ob.number() {
-            None => v.push(self.v14("P2-nothing-before-number-complete", trigger, format!("{} reported {} although no complete parameter number was received since creation/reset (history record {:?})", trigger, pnm_str(t), ob))),
+            None => v.push(self.v14("P2-nothing-before-number-complete", trigger, || format!("{} reported {} although no complete parameter number was received since creation/reset (history record {:?})", trigger, pnm_str(t), ob))),
             Some(n) => {
                 if t[1] != n || t[3] != ob.reg as u32 {
-                    v.push(self.v14("P2-number-and-kind-from-latest-number-bytes", trigger, format!("{} reported {}; the latest number bytes before the call give number {} registered={} (history record {:?})", trigger, pnm_str(t), n, ob.reg, ob)));
+                    v.push(self.v14("P2-number-and-kind-from-latest-number-bytes", trigger, || format!("{} reported {}; the latest number bytes before the call give number {} registered={} (history record {:?})", trigger, pnm_str(t), n, ob.reg, ob)));
                 }
             }
         }
         if t[4] == 1 && t[5] != 0 {
-            v.push(self.v14("P5-14-bit-is-data-entry", trigger, format!("{} reported an inconsistent message {:?}", trigger, t)));
+            v.push(self.v14("P5-14-bit-is-data-entry", trigger, || format!("{} reported an inconsistent message {:?}", trigger, t)));
         } else if is_inc_dec(t) {
             let ok = match ctrl {
                 Some((96, val)) => t[5] == 1 && t[2] == val as u32,
@@ -189,13 +189,13 @@ impl PollSys {
                 _ => false,
             };
             if !ok {
-                v.push(self.v14("P3-inc-dec-from-current-message", trigger, format!("{} reported {}", trigger, pnm_str(t))));
+                v.push(self.v14("P3-inc-dec-from-current-message", trigger, || format!("{} reported {}", trigger, pnm_str(t))));
             }
         } else if is_7bit_entry(t) {
             match ob.last6 {
                 Some((b, true)) if b as u32 == t[2] => {}
-                Some((b, false)) if b as u32 == t[2] => v.push(self.v14("P4-7bit-not-reported-before", trigger, format!("{} reported {} but the controller-6 byte {} was already reported as 7-bit or used in a 14-bit message", trigger, pnm_str(t), b))),
-                other => v.push(self.v14("P4-7bit-value-is-latest-controller-6", trigger, format!("{} reported {}; the most recent controller-6 byte before the call is {:?}", trigger, pnm_str(t), other))),
+                Some((b, false)) if b as u32 == t[2] => v.push(self.v14("P4-7bit-not-reported-before", trigger, || format!("{} reported {} but the controller-6 byte {} was already reported as 7-bit or used in a 14-bit message", trigger, pnm_str(t), b))),
+                other => v.push(self.v14("P4-7bit-value-is-latest-controller-6", trigger, || format!("{} reported {}; the most recent controller-6 byte before the call is {:?}", trigger, pnm_str(t), other))),
             }
         } else {
             // 14-bit data entry
@@ -209,7 +209,7 @@ impl PollSys {
             };
             match (l6, l38) {
                 (Some(h), Some(l)) if t[2] == h as u32 * 128 + l as u32 => {}
-                _ => v.push(self.v14("P5-14bit-from-latest-controller-6-and-38", trigger, format!("{} reported {}; most recent controller-6 / controller-38 bytes up to this message are {:?} / {:?}", trigger, pnm_str(t), l6, l38))),
+                _ => v.push(self.v14("P5-14bit-from-latest-controller-6-and-38", trigger, || format!("{} reported {}; most recent controller-6 / controller-38 bytes up to this message are {:?} / {:?}", trigger, pnm_str(t), l6, l38))),
             }
         }
     }
@@ -236,13 +236,13 @@ impl PollSys {
             if let Some(second) = &out[1] {
                 let ok = matches!(d1, 96 | 97) && contributing_cc && out[0].map_or(false, |f| is_7bit_entry(&f)) && is_inc_dec(second) && ob.owed.is_some();
                 if !ok {
-                    v.push(self.v14("P7-two-messages-only-for-inc-dec-after-pending-msb", &trigger, format!("{} returned [{:?}, {:?}] (pending MSB: {:?})", trigger, out[0].map(|t| pnm_str(&t)), pnm_str(second), ob.owed)));
+                    v.push(self.v14("P7-two-messages-only-for-inc-dec-after-pending-msb", &trigger, || format!("{} returned [{:?}, {:?}] (pending MSB: {:?})", trigger, out[0].map(|t| pnm_str(&t)), pnm_str(second), ob.owed)));
                 }
             }
             // 7-bit / 14-bit twice in one call
             if let (Some(a), Some(b)) = (&out[0], &out[1]) {
                 if !is_inc_dec(a) && !is_inc_dec(b) {
-                    v.push(self.v14("P4-7bit-not-reported-before", &trigger, format!("{} returned two data entry messages {} and {}", trigger, pnm_str(a), pnm_str(b))));
+                    v.push(self.v14("P4-7bit-not-reported-before", &trigger, || format!("{} returned two data entry messages {} and {}", trigger, pnm_str(a), pnm_str(b))));
                 }
             }
             // P6: a pending MSB must be reported by the next contributing message
@@ -250,7 +250,7 @@ impl PollSys {
                 if let Some((b, _)) = ob.owed {
                     let reported = out.iter().flatten().any(|t| (is_7bit_entry(t) && t[2] == b as u32) || (is_14bit(t) && (t[2] >> 7) == b as u32));
                     if !reported {
-                        v.push(self.v14("P6-pending-msb-lost", &trigger, format!("controller-6 byte {} was pending; the next contributing message {} returned {:?} without reporting it", b, trigger, out.map(|o| o.map(|t| pnm_str(&t))))));
+                        v.push(self.v14("P6-pending-msb-lost", &trigger, || format!("controller-6 byte {} was pending; the next contributing message {} returned {:?} without reporting it", b, trigger, out.map(|o| o.map(|t| pnm_str(&t))))));
                     }
                 }
             }
@@ -259,7 +259,7 @@ impl PollSys {
             // R5: after an unpaired LSB was dropped by a poll, a controller-6 feed must not
             // produce a 14-bit message
             if contributing_cc && ob.lsb_dropped && d1 == 6 && out.iter().flatten().any(is_14bit) {
-                v.push(self.v13("R5-unpaired-lsb-dropped-by-poll-after-timeout", "feed(CC#6)", format!("an unpaired data entry LSB was polled after the timeout, yet the following controller-6 feed reported {:?}", out.map(|o| o.map(|t| pnm_str(&t))))));
+                v.push(self.v13("R5-unpaired-lsb-dropped-by-poll-after-timeout", "feed(CC#6)", || format!("an unpaired data entry LSB was polled after the timeout, yet the following controller-6 feed reported {:?}", out.map(|o| o.map(|t| pnm_str(&t))))));
             }
             // R4: the mere passage of time never changes what feed returns
             let later: [u64; 4] = if self.timeout >= T_INF { [1, 2, 1000, self.cap] } else { [1, self.timeout.max(1), self.timeout + 1, self.cap] };
@@ -268,7 +268,7 @@ impl PollSys {
                 let mut c2 = s.sc;
                 let o2 = c2.feed_msg(&msg);
                 if o2 != out {
-                    v.push(self.v13("R4-time-does-not-change-feed", &trigger, format!("{} returns {:?} now but {:?} when fed {} ms later", trigger, out.map(|o| o.map(|t| pnm_str(&t))), o2.map(|o| o.map(|t| pnm_str(&t))), dt)));
+                    v.push(self.v13("R4-time-does-not-change-feed", &trigger, || format!("{} returns {:?} now but {:?} when fed {} ms later", trigger, out.map(|o| o.map(|t| pnm_str(&t))), o2.map(|o| o.map(|t| pnm_str(&t))), dt)));
                     break;
                 }
             }
@@ -279,13 +279,13 @@ impl PollSys {
             let mut copy = s.sc;
             let out2 = copy.feed_msg(&msg);
             if out2 != out || copy != sc {
-                v.push(self.vx("copy-evolves-identically", "feed", format!("feeding ({:#04X},{},{}) to two copies of the same scanner gave {:?} / {:?}, states equal: {}", st, d1, d2, out, out2, copy == sc)));
+                v.push(self.vx("copy-evolves-identically", "feed", || format!("feeding ({:#04X},{},{}) to two copies of the same scanner gave {:?} / {:?}, states equal: {}", st, d1, d2, out, out2, copy == sc)));
             }
         }
         if self.report.repr {
             set_now_millis(s.now);
             if let Some(d) = repr_divergence(&s.sc, &sc, &out, st, d1, d2) {
-                v.push(self.vx("representation-matters", "feed", format!("({:#04X},{},{}): {}", st, d1, d2, d)));
+                v.push(self.vx("representation-matters", "feed", || format!("({:#04X},{},{}): {}", st, d1, d2, d)));
             }
         }
         // ---- observer update ----
@@ -355,19 +355,19 @@ impl PollSys {
             match (&out, ob.owed, age_owed) {
                 (Some(t), Some((b, _)), Some(age)) => {
                     if age < self.timeout {
-                        v.push(self.v13("R1-poll-returns-only-after-timeout", "early", format!("poll returned {} only {} ms after the data entry MSB was fed (timeout {})", pnm_str(t), age, self.tname())));
+                        v.push(self.v13("R1-poll-returns-only-after-timeout", "early", || format!("poll returned {} only {} ms after the data entry MSB was fed (timeout {})", pnm_str(t), age, self.tname())));
                     }
                     let want = [self.ch as u32, ob.number().unwrap_or(u32::MAX), b as u32, ob.reg as u32, 0, 0];
                     if *t != want {
-                        v.push(self.v13("R1-poll-returns-the-pending-msb", "content", format!("poll returned {}; the pending data entry MSB is {} for number {:?} registered={}", pnm_str(t), b, ob.number(), ob.reg)));
+                        v.push(self.v13("R1-poll-returns-the-pending-msb", "content", || format!("poll returned {}; the pending data entry MSB is {} for number {:?} registered={}", pnm_str(t), b, ob.number(), ob.reg)));
                     }
                 }
                 (Some(t), None, _) => {
-                    v.push(self.v13("R1-poll-returns-only-a-pending-msb", "nothing-pending", format!("poll returned {} although no data entry MSB is pending (history record {:?})", pnm_str(t), ob)));
+                    v.push(self.v13("R1-poll-returns-only-a-pending-msb", "nothing-pending", || format!("poll returned {} although no data entry MSB is pending (history record {:?})", pnm_str(t), ob)));
                 }
                 (None, Some((b, _)), Some(age)) => {
                     if age >= self.timeout {
-                        v.push(self.v13("R2-poll-returns-expired-pending-msb", "missing", format!("data entry MSB {} has been pending for {} ms (timeout {}) but poll returned nothing", b, age, self.tname())));
+                        v.push(self.v13("R2-poll-returns-expired-pending-msb", "missing", || format!("data entry MSB {} has been pending for {} ms (timeout {}) but poll returned nothing", b, age, self.tname())));
                     }
                 }
                 _ => {}
@@ -375,7 +375,7 @@ impl PollSys {
             // R3: a poll before the timeout has no effect
             let early = age_owed.map_or(false, |a| a < self.timeout) || age_lsb.map_or(false, |a| a < self.timeout);
             if early && out.is_none() && sc != s.sc {
-                v.push(self.v13("R3-early-poll-has-no-effect", "state", format!("a poll before the timeout changed the scanner: {:?} -> {:?}", s.sc, sc)));
+                v.push(self.v13("R3-early-poll-has-no-effect", "state", || format!("a poll before the timeout changed the scanner: {:?} -> {:?}", s.sc, sc)));
             }
         }
         if self.report.dup {
@@ -383,7 +383,7 @@ impl PollSys {
             let mut copy = s.sc;
             let out2 = copy.poll_ch(self.ch);
             if out2 != out || copy != sc {
-                v.push(self.vx("copy-evolves-identically", "poll", "polling two copies of the same scanner gave different results".to_string()));
+                v.push(self.vx("copy-evolves-identically", "poll", || "polling two copies of the same scanner gave different results".to_string()));
             }
         }
         // observer update
@@ -464,15 +464,15 @@ impl System for PollSys {
                 if self.report.transparency {
                     let cls = if st & 0xF0 == 0xB0 { format!("CC#{}", d1) } else { format!("status{:X}", if st < 0xF0 { st & 0xF0 } else { st }) };
                     if out[0].is_some() || out[1].is_some() {
-                        v.push(self.vx("non-contributing-reports", &cls, format!("non-contributing message ({:#04X},{},{}) made the scanner report {:?}", st, d1, d2, out)));
+                        v.push(self.vx("non-contributing-reports", &cls, || format!("non-contributing message ({:#04X},{},{}) made the scanner report {:?}", st, d1, d2, out)));
                     }
                     if sc != s.sc {
-                        v.push(self.vx("non-contributing-changes-state", &cls, format!("non-contributing message ({:#04X},{},{}) left the scanner in a different state", st, d1, d2)));
+                        v.push(self.vx("non-contributing-changes-state", &cls, || format!("non-contributing message ({:#04X},{},{}) left the scanner in a different state", st, d1, d2)));
                     }
                 }
                 if self.report.repr {
                     if let Some(d) = repr_divergence(&s.sc, &sc, &out, st, d1, d2) {
-                        v.push(self.vx("representation-matters", "non-contributing", format!("({:#04X},{},{}): {}", st, d1, d2, d)));
+                        v.push(self.vx("representation-matters", "non-contributing", || format!("({:#04X},{},{}): {}", st, d1, d2, d)));
                     }
                 }
                 Step { next: None, obs: 0, violations: v }
@@ -506,7 +506,7 @@ impl System for PollSys {
                     sc.reset();
                     let fresh = self.new_scanner();
                     if sc != fresh {
-                        v.push(self.vx("reset-equals-new", "reset", format!("after reset() the scanner is {:?}, a new one with the same timeout is {:?}", sc, fresh)));
+                        v.push(self.vx("reset-equals-new", "reset", || format!("after reset() the scanner is {:?}, a new one with the same timeout is {:?}", sc, fresh)));
                     }
                 }
                 Step { next: None, obs: 0, violations: v }
